@@ -1,6 +1,11 @@
 use crate::internal::{consts, MiniAllocator, ObjType, SectorInit};
 use std::io::{self, BufRead, Read, Seek, SeekFrom, Write};
+#[cfg(not(feature = "verif-hooks"))]
 use std::sync::{Arc, RwLock, Weak};
+#[cfg(feature = "verif-hooks")]
+use crate::internal::sync::RwLock;
+#[cfg(feature = "verif-hooks")]
+use std::sync::{Arc, Weak};
 
 //===========================================================================//
 
